@@ -32,7 +32,7 @@ type env struct {
 func setup() (*env, error) {
 	b := broker.New()
 	b.Register()
-	conn, err := iscp.Connect("mem", broker.TransportName, iscp.WithConnPingInterval(20*time.Millisecond), iscp.WithConnPingTimeout(2*time.Second))
+	conn, err := iscp.Connect("mem", broker.TransportName, iscp.WithConnPingInterval(20*time.Millisecond), iscp.WithConnPingTimeout(400*time.Millisecond))
 	if err != nil {
 		return nil, err
 	}
